@@ -55,7 +55,8 @@ def gen(rng, tier, idx):
     sched['poison'] = rng.random() < 0.7
     return dict(kind=kind, P=max(g[0] * g[1] for g in grids), ckw=ckw, grids=grids,
                 chi=rng.choice([0, 1]), adiabatic=rng.random() < 0.75, rseed=rng.randrange(1 << 30),
-                complex_rho=rng.random() < 0.15, B=rng.choice([None, None, 1.0, 0.6, 1.7]) if kind == 'pipeline' else None, twice=rng.random() < 0.4, regrid=rng.random() < 0.4, start=rng.choice(['flux_surface', 'v_parallel', 'poloidal']),
+                complex_rho=rng.random() < 0.15, B=rng.choice([None, None, 1.0, 0.6, 1.7]) if kind == 'pipeline' else None,
+                Te_user=[rng.choice([0.5, 1.0, 2.5]), rng.choice([0.0, 0.4, -0.3]), rng.choice([3.0, 7.0])] if (kind == 'pipeline' and rng.random() < 0.25) else None, twice=rng.random() < 0.4, regrid=rng.random() < 0.4, start=rng.choice(['flux_surface', 'v_parallel', 'poloidal']),
                 sched=sched)
 
 
@@ -86,7 +87,8 @@ def run_pipeline(case, tape):
         def rank_fn(comm, rank, alt=alt):
             f, constants = phys.setup_f(comm, ckw, 'v_parallel')
             phys.check_forced(f, g)
-            pipe = phys.Pipeline(comm, f, constants, chi=case['chi'], adiabatic=case['adiabatic'], B=case.get('B'))
+            pipe = phys.Pipeline(comm, f, constants, chi=case['chi'], adiabatic=case['adiabatic'], B=case.get('B'),
+                                 opts=dict(Te_user=case.get('Te_user')))
             rho, phi, QN = pipe.rho, pipe.phi, pipe.QN
             rho.getAllData()[:] = cm.local(R, rho.getLayout('v_parallel_2d'))
             before = np.array(rho.getAllData(), copy=True)
@@ -151,7 +153,8 @@ def run_pipeline(case, tape):
             # ordering are the implementation's choice - only the round trip and the potential are)
             if phys.relerr(modes, np.fft.fft(R.astype(complex), axis=1)) <= 1e-12:
                 w.probe('modes_equal_unnormalised_fft')
-            want = ref.qn_ref(R, eta, cdict, case['chi'], case['adiabatic'], Bfield=case.get('B') or 1.0)
+            want = ref.qn_ref(R, eta, cdict, case['chi'], case['adiabatic'], Bfield=case.get('B') or 1.0,
+                                           Te_fn=phys.user_Te(case['Te_user']) if case.get('Te_user') else None)
             e = phys.relerr(got, want)
             if not (e <= 1e-9):
                 raise OracleFail('potential-differs', dict(grid=g, relerr=e, chi=case['chi'],
@@ -162,13 +165,15 @@ def run_pipeline(case, tape):
                     raise OracleFail('potential-not-real', dict(grid=g, imag_rel=im))
             if case.get('twice'):
                 got2 = phys.assemble([r['phi2'] for r in results], npts[:3], 'phi (second solve)')
-                e2 = phys.relerr(got2, ref.qn_ref(R2, eta, cdict, case['chi'], case['adiabatic'], Bfield=case.get('B') or 1.0))
+                e2 = phys.relerr(got2, ref.qn_ref(R2, eta, cdict, case['chi'], case['adiabatic'], Bfield=case.get('B') or 1.0,
+                                           Te_fn=phys.user_Te(case['Te_user']) if case.get('Te_user') else None))
                 if not (e2 <= 1e-9):
                     raise OracleFail('potential-differs', dict(grid=g, relerr=e2, why='second solve on the same solver and grids'))
             pr = {'grid_%dx%d' % (g[0], g[1]): 1}
             if results[0].get('phi3') is not None:
                 got3 = phys.assemble([r['phi3'] for r in results], npts[:3], 'phi (other process grid, same solver)')
-                e3 = phys.relerr(got3, ref.qn_ref(R2, eta, cdict, case['chi'], case['adiabatic'], Bfield=case.get('B') or 1.0))
+                e3 = phys.relerr(got3, ref.qn_ref(R2, eta, cdict, case['chi'], case['adiabatic'], Bfield=case.get('B') or 1.0,
+                                           Te_fn=phys.user_Te(case['Te_user']) if case.get('Te_user') else None))
                 if not (e3 <= 1e-9):
                     raise OracleFail('potential-differs', dict(grid=g, relerr=e3,
                                                                why='same solver used on grids over another process grid'))
@@ -194,6 +199,8 @@ def run_pipeline(case, tape):
             probes['B_not_one'] = 1
         if (ckw.get('splineDegrees') or [3])[0] != 3:
             probes['radial_degree_not_3'] = 1
+        if case.get('Te_user') and case['adiabatic']:
+            probes['electron_temperature_given_by_caller'] = 1
         return dict(nontrivial=case['P'] > 1, probes=probes)
     return M.finish(oracle=oracle)
 
